@@ -39,12 +39,15 @@ Callsites == [lvl : Levels, tgt : Targets]
 \*   kind "static": register_callsite answers always / never, enabled() is the static part
 \*   kind "dyn"   : sometimes where the static part accepts, never elsewhere; enabled() = static part /\ flag
 \*   kind "lazy"  : always answers sometimes;                                enabled() = static part /\ flag
-FilterOK(f) == /\ f.thr \in 0..5 /\ f.tgts \subseteq Targets /\ f.kind \in {"static", "dyn", "lazy"}
+\*   kind "none"  : the no-op collector of Dispatch::none() - never registered, rejects and discards everything
+FilterOK(f) == /\ f.thr \in 0..5 /\ f.tgts \subseteq Targets /\ f.kind \in {"static", "dyn", "lazy", "none"}
                /\ (f.hint = NoHint \/ (f.hint \in 0..5 /\ f.hint >= f.thr))   \* a hint is a true upper bound
 StaticPart(f, c) == c.lvl <= f.thr /\ c.tgt \in f.tgts
 Interest(f, c) == CASE f.kind = "static" -> IF StaticPart(f, c) THEN "Always" ELSE "Never"
                     [] f.kind = "dyn"    -> IF StaticPart(f, c) THEN "Sometimes" ELSE "Never"
                     [] f.kind = "lazy"   -> "Sometimes"
+                    [] f.kind = "none"   -> "Never"
+NoneFilter == [thr |-> 0, tgts |-> {}, kind |-> "none", hint |-> NoHint]
 Enabled(f, fl, c) == StaticPart(f, c) /\ (f.kind = "static" \/ fl)
 HintOrTrace(f) == IF f.hint = NoHint THEN 5 ELSE f.hint
 
@@ -102,7 +105,8 @@ LevelGate(c) == c.lvl <= StaticMax /\ c.lvl <= maxLevel
 MPasses(t, c) == /\ LevelGate(c)
                  /\ IntNow(c) # "Never"
                  /\ (IntNow(c) = "Always" \/ (MCur(t) # NoD /\ Enabled(filt[MCur(t)], flag[MCur(t)], c)))
-MGot(t, c) == IF MPasses(t, c) THEN MCur(t) ELSE NoD      \* then Event::dispatch hands it to the current default
+\* then Event::dispatch hands it to the current default (the no-op collector discards it)
+MGot(t, c) == IF MPasses(t, c) /\ (MCur(t) = NoD \/ filt[MCur(t)].kind # "none") THEN MCur(t) ELSE NoD
 
 (* ----------------------------- actions -------------------------------- *)
 RebuildWith(ds, h) ==   \* rebuild_interest under the write lock; h = handle function in effect
@@ -123,6 +127,13 @@ NewDispatch(d, f) ==
   /\ flag' = [flag EXCEPT ![d] = TRUE]
   /\ RebuildWith(Append(dispatchers, d), handle')          \* push, then rebuild (register_dispatch)
   /\ UNCHANGED <<scopes, global, tl, guards, scopedCount, mglobal>>
+
+\* Dispatch::none(): a dispatch value over the no-op collector; it is not registered anywhere
+NewNone(d) ==
+  /\ handle[d] = "unborn"
+  /\ handle' = [handle EXCEPT ![d] = "held"]
+  /\ filt' = [filt EXCEPT ![d] = NoneFilter]
+  /\ UNCHANGED <<flag, scopes, global, mvars>>
 
 DropHandle(d) ==                                            \* no rebuild on drop
   /\ handle[d] = "held"
@@ -185,7 +196,7 @@ Init ==
 
 Next ==
   \/ \E d \in Disp, f \in Filters : NewDispatch(d, f)
-  \/ \E d \in Disp : DropHandle(d) \/ SetGlobal(d) \/ Flip(d)
+  \/ \E d \in Disp : DropHandle(d) \/ SetGlobal(d) \/ Flip(d) \/ NewNone(d)
   \/ \E t \in Threads, d \in Disp : SetDefault(t, d)
   \/ \E t \in Threads : Unset(t)
   \/ \E t \in Threads, c \in Callsites : Emit(t, c)
